@@ -356,7 +356,7 @@ def oracle(case, grid=None):
         lv = leaves(spec["grid"] if spec["kind"] == "flat" else spec)
         win = []
         for lf in lv:
-            win += [1] if lf["kind"] == "hp" else [3] * len(lf["shape0"])
+            win += [1] if lf["kind"] == "hp" else [3] * len(lf.get("shape0", lf.get("min_shape", [0])))
         assert len(win) == inner_nd
     try:
         return _oracle_levels(spec, grid, d, nd, win)
@@ -594,7 +594,11 @@ _OPEN = {
     3: dict(kind="open", shape0=[4, 3, 5], splits=[[1, 2, 3]], padding=[[1, 0, 2]]),
     4: dict(kind="open", shape0=[3, 2, 4, 3], splits=[[2, 1, 1, 2]], padding=[[1, 0, 1, 0]]),
 }
-FIXED = [_REG[n] for n in (2, 3, 4)] + [_OPEN[n] for n in (2, 3, 4)] + [
+# depth 3 (level 2 is an inner level with both a parent and children), different splits on every level
+_DEEP = [dict(kind="regular", shape0=[1, 2], splits=[[2, 1], [1, 3], [2, 2]]),
+         dict(kind="open", shape0=[5], splits=[[2], [1], [3]], padding=[[1], [1], [1]])]
+FIXED = [_REG[n] for n in (2, 3, 4)] + [_OPEN[n] for n in (2, 3, 4)] + _DEEP + [
+    dict(kind="flat", ordering="nest", grid=_DEEP[0]), dict(kind="flat", ordering="serial", grid=_DEEP[1]),
     dict(kind="hp", nside0=1, depth=2),
     dict(kind="mgrid", grids=[_REG[1], _OPEN[1]]),
     dict(kind="mgrid", grids=[dict(kind="regular", shape0=[2], splits=[[2]]), dict(kind="hp", nside0=1, depth=1),
